@@ -556,7 +556,7 @@ theorem seqStep_ko (n : Node) (hk : kok n = true) (hseq : IsSeq n.kind) (op : Se
       split
       · split
         · exact kor_self _ _ _ _ _ _
-        · exact kor_exc _ _ _ _ _
+        · split <;> exact kor_exc _ _ _ _ _
       · split
         · exact hsub _ _ (fun x hx => mem_sortBy.mp hx)
         · exact kor_exc _ _ _ _ _
